@@ -143,3 +143,12 @@ func Lookup(b []byte, names map[string][]byte) string {
 	}
 	return fmt.Sprintf("?%x", Bytes(string(b), 3))
 }
+
+// KeyIdOf derives the library key id of a PKIX key (panics on error).
+func KeyIdOf(pkix []byte) string {
+	id, err := nodeenrollment.KeyIdFromPkix(pkix)
+	if err != nil {
+		panic(err)
+	}
+	return id
+}
